@@ -655,6 +655,77 @@ func computeRangeLoops(fn *ssa.Function) []*RangeLoop {
 		out = append(out, &RangeLoop{Loop: l, Slice: ln.Common().Args[0], Index: phi, Next: inc,
 			Body: h.Succs[0], Done: h.Succs[1], Header: h})
 	}
+	// the hand-written equivalent: for i := 0; i < len(S); i++ { ... S[i] ... } with S loop-invariant
+	for _, l := range Loops(fn) {
+		h := l.Header
+		dup := false
+		for _, r := range out {
+			if r.Header == h {
+				dup = true
+			}
+		}
+		if dup || len(h.Instrs) < 2 || len(h.Succs) != 2 {
+			continue
+		}
+		iff, ok := h.Instrs[len(h.Instrs)-1].(*ssa.If)
+		if !ok {
+			continue
+		}
+		cmp, ok := iff.Cond.(*ssa.BinOp)
+		if !ok {
+			continue
+		}
+		var iv, bound ssa.Value
+		switch cmp.Op {
+		case token.LSS, token.NEQ:
+			iv, bound = cmp.X, cmp.Y
+		case token.GTR:
+			iv, bound = cmp.Y, cmp.X
+		default:
+			continue
+		}
+		phi, ok := iv.(*ssa.Phi)
+		if !ok || phi.Block() != h {
+			continue
+		}
+		ln, ok := bound.(*ssa.Call)
+		if !ok {
+			continue
+		}
+		bi, ok := ln.Common().Value.(*ssa.Builtin)
+		if !ok || bi.Name() != "len" {
+			continue
+		}
+		if ln.Block() != h && l.Blocks[ln.Block()] {
+			continue
+		}
+		sl := ln.Common().Args[0]
+		if _, isSlice := sl.Type().Underlying().(*types.Slice); !isSlice {
+			continue
+		}
+		if in, isInstr := sl.(ssa.Instruction); isInstr && in.Block() != nil && l.Blocks[in.Block()] {
+			continue // the slice itself changes inside the loop
+		}
+		okPhi := true
+		for i, e := range phi.Edges {
+			if l.Blocks[h.Preds[i]] {
+				inc, isInc := e.(*ssa.BinOp)
+				if !isInc || inc.Op != token.ADD || inc.X != ssa.Value(phi) {
+					okPhi = false
+					continue
+				}
+				if one, isK := inc.Y.(*ssa.Const); !isK || one.Value == nil || one.Value.String() != "1" {
+					okPhi = false
+				}
+			} else if k, isK := e.(*ssa.Const); !isK || k.Value == nil || k.Value.String() != "0" {
+				okPhi = false
+			}
+		}
+		if !okPhi || !l.Blocks[h.Succs[0]] || l.Blocks[h.Succs[1]] {
+			continue
+		}
+		out = append(out, &RangeLoop{Loop: l, Slice: sl, Index: phi, Next: phi, Body: h.Succs[0], Done: h.Succs[1], Header: h})
+	}
 	return out
 }
 
